@@ -14,6 +14,8 @@ import (
 	"context"
 	"crypto/rand"
 	"crypto/x509"
+	"crypto/x509/pkix"
+	"encoding/asn1"
 	"encoding/pem"
 	"fmt"
 	"math/big"
@@ -102,6 +104,30 @@ func main() {
 				kinds["ownKeyOtherIssuerName"] = certKind{"ownKeyOtherIssuerName", &lib.Ent{Cert: c}, true, false}
 				allKinds = append(allKinds, "ownKeyOtherIssuerName")
 				r.Event("kind-own-key-other-issuer-name-available")
+			}
+		}
+	}
+	// ... and one whose issuer name holds the very attributes of its subject in ANOTHER order (reversed RDN sequence): two
+	// different distinguished names that print alike once a library sorts the attributes for display
+	{
+		tmpl := *root2.Cert
+		tmpl.Subject = pkix.Name{CommonName: "c13-permuted-issuer", Organization: []string{"Org"}, Province: []string{"WA"}, Country: []string{"US"}}
+		tmpl.SerialNumber = big.NewInt(434343)
+		tmpl.RawSubject, tmpl.RawIssuer, tmpl.SubjectKeyId, tmpl.AuthorityKeyId = nil, nil, nil, nil
+		seq := tmpl.Subject.ToRDNSequence()
+		rev := make(pkix.RDNSequence, len(seq))
+		for i := range seq {
+			rev[len(seq)-1-i] = seq[i]
+		}
+		parent := tmpl
+		if raw, err := asn1.Marshal(rev); err == nil {
+			parent.RawSubject = raw
+			if der, err := x509.CreateCertificate(rand.Reader, &tmpl, &parent, root2.Key.Public(), root2.Key); err == nil {
+				if c, err := x509.ParseCertificate(der); err == nil && c.CheckSignatureFrom(c) == nil && !bytes.Equal(c.RawSubject, c.RawIssuer) {
+					kinds["ownKeyIssuerIsSubjectPermuted"] = certKind{"ownKeyIssuerIsSubjectPermuted", &lib.Ent{Cert: c}, true, false}
+					allKinds = append(allKinds, "ownKeyIssuerIsSubjectPermuted", "ownKeyIssuerIsSubjectPermuted")
+					r.Event("kind-own-key-issuer-is-subject-permuted-available")
+				}
 			}
 		}
 	}
